@@ -518,6 +518,94 @@ def rule_c04_direct(ctx):
               "a direct-write report on a chunked body is refused", loc=body_loc(cd))
 
 
+def _calls_changing_remaining(prog):
+    """(public calls that can return with `Sized(left)` changed, public calls E4 could not explore) - over the public methods
+    of the call and of the flow states that hold a with-body call"""
+    from .panics import public_api
+    from .interp import mkproj
+    changers, unknown = set(), set()
+    tail = LEFTP[-4:]
+    # only calls that can reach a store of a u64 through a pointer at all (the remaining length is the crate's `&mut u64`)
+    from .panics import reachable_from
+    storers = set()
+    for x in prog.bodies.values():
+        for blk in x.blocks:
+            for s_ in blk["stmts"]:
+                if s_["k"] == "assign" and s_["place"].get("ty") == "u64" and any(e["k"] == "deref" for e in s_["place"]["proj"]):
+                    storers.add(x.id)
+    for b in public_api(prog):
+        if not (storers & set(y.id for y in reachable_from(prog, [b]))):
+            continue
+        imp = b.impl_self or ""
+        # typestates in which the request body writer is live: the with-body call and the flow states that hold it
+        if imp.startswith("client::call::Call<") and "WithBody" in imp.split(",")[0]:
+            pre = ()
+        elif imp.startswith("client::flow::Flow<") and any(x in imp for x in ("Prepare>", "SendRequest>", "Await100>", "SendBody>")):
+            pre = (("f", "inner"), ("f", "call"), ("v", "WithBody"), ("f", "0"))
+        else:
+            continue
+        if b.arg_count < 1 or "self" not in (b.raw.get("sig") or "self"):
+            pass
+        ty0 = b.locals[1]["ty"] if b.arg_count >= 1 else ""
+        if not ("Call<" in ty0 or "Flow<" in ty0):
+            continue          # associated function without receiver (constructors)
+        byref = ty0.startswith("&")
+        RECV = ("OBJ", "recv")
+        I = _mk(prog, max_states=6000, opaque={"try_parse_response", "try_parse_partial_response", "try_parse_request"})
+
+        def init(st, pre=pre):
+            st.write_leaf(RECV, (), ("term", ("in", "recv")))
+            if pre:
+                st.write_leaf(RECV, (("f", "inner"), ("f", "call"), ("$v",)), ("variant", "WithBody"))
+            w = pre + (("f", "state"), ("f", "writer"))
+            st.write_leaf(RECV, w + (("f", "mode"), ("$v",)), ("variant", "Sized"))
+            st.write_leaf(RECV, pre + LEFTP, ("term", ("in", "left")))
+            st.facts[("in", "left")] = ("iv", ((0, U64MAX),))
+            for i in range(1, b.arg_count):
+                if b.locals[i + 1]["ty"].startswith("&"):
+                    st.write_leaf(("OBJ", "a%d" % i), (), ("term", ("in", "a%d" % i)))
+        args = []
+        if byref:
+            args.append(ref(RECV))
+        else:
+            args.append(None)
+        for i in range(1, b.arg_count):
+            args.append(ref(("OBJ", "a%d" % i)) if b.locals[i + 1]["ty"].startswith("&") else {(): ("term", ("in", "a%d" % i))})
+        try:
+            if not byref:
+                # by-value receiver: hand over the prepared object's tree
+                from .interp import State
+                tmp = State()
+                init(tmp)
+                args[0] = tmp.read_tree(RECV, ())
+            outs = I.run(b, args, init)
+        except (PathLimit, Unsupported):
+            unknown.add(b.short)
+            continue
+        ch = False
+        for o in outs:
+            if o.kind == "cut":
+                unknown.add(b.short)
+            if o.kind != "return":
+                continue
+            leaves = []
+            if byref:
+                d = o.state.mem.get(RECV, {})
+                leaves.append((d.get(pre + LEFTP), d.get(pre + LEFTP[:-2] + (("$v",),))))
+            else:
+                for pth, l in o.ret.items():
+                    if len(pth) >= 4 and pth[-4:] == tail:
+                        leaves.append((l, o.ret.get(pth[:-2] + (("$v",),))))
+            for l, v in leaves:
+                if v is not None and v != ("variant", "Sized"):
+                    ch = True
+                if l is not None and l != ("term", ("in", "left")):
+                    ch = True
+        if ch:
+            changers.add(b.short)
+    return changers, unknown
+
+
 def rule_c04_who_writes(ctx):
     """R04.4: the remaining length is stored to only by the two mutators (and constructors)"""
     from .effects import effects_of
@@ -547,9 +635,17 @@ def rule_c04_who_writes(ctx):
         for a_ in public_api(prog):
             if wb is not None and wb.id in set(x.id for x in reachable_from(prog, [a_])):
                 roots.add(a_.short)
-    ctx.check(writers and roots and roots <= ALLOWED, R, "who-writes-remaining",
-              "the remaining request-body length is stored only in the course of a body write or a reported direct write (stores in: %s)" % ", ".join(writers),
-              detail=sorted(roots - ALLOWED), bad_desc="the remaining request-body length can be stored from: %s" % sorted(roots - ALLOWED))
+    # the same question asked of the abstract paths (a store through a borrowed `&mut u64` handed around in a struct is invisible
+    # to the field-path summaries above): which public calls can return with a different remaining length?
+    changers, unknown = _calls_changing_remaining(prog)
+    sem_ok = bool(changers) and changers <= ALLOWED and not (unknown - ALLOWED)
+    e1_ok = bool(writers) and bool(roots) and roots <= ALLOWED
+    offenders = sorted((roots - ALLOWED) | (changers - ALLOWED) | (unknown - ALLOWED))
+    ctx.check(sem_ok and (e1_ok or not writers), R, "who-writes-remaining",
+              "the remaining request-body length is stored only in the course of a body write or a reported direct write (stores in: %s; "
+              "public calls that can return with a changed remaining length on their abstract paths: %s)" % (
+                  ", ".join(writers) or "-", ", ".join(sorted(changers)) or "-"),
+              detail=offenders, bad_desc="the remaining request-body length can be stored from: %s" % offenders)
 
 
 def rule_c08_close_marks_connection(ctx):
